@@ -370,11 +370,11 @@ theorem setItem_attrs (s : Store) (name : Name) (v : Operand) :
   | some ser => exact assignWhole_attrs _ _ _ _
 
 /-- `add_attribute`: either nothing happens (DuplicateNameError) or the name is appended to the attribute list —
-    and then it was neither a variable, nor an attribute, nor (with the key check) any key of the instance dict. -/
+    and then it was neither a variable, nor an attribute, nor (with the key check) the storage key of a variable. -/
 theorem addAttribute_cases (cfg : Cfg) (s : Store) (name : Name) :
     addAttribute cfg s name = (s, .raised .duplicateName) ∨
     (addAttribute cfg s name = ({ s with attrs := s.attrs ++ [name] }, .ok) ∧ ¬ s.index.contains name = true ∧
-      ¬ s.attrs.contains name = true ∧ ¬ (cfg.addAttrChecksKeys && s.dictKeys.contains name) = true) := by
+      ¬ s.attrs.contains name = true ∧ ¬ (cfg.addAttrChecksKeys && s.varKeys.contains name) = true) := by
   unfold addAttribute
   by_cases h1 : s.index.contains name = true
   · left; rw [if_pos h1]
@@ -382,7 +382,7 @@ theorem addAttribute_cases (cfg : Cfg) (s : Store) (name : Name) :
     by_cases h2 : s.attrs.contains name = true
     · left; rw [if_pos h2]
     · rw [if_neg h2]
-      by_cases h3 : (cfg.addAttrChecksKeys && s.dictKeys.contains name) = true
+      by_cases h3 : (cfg.addAttrChecksKeys && s.varKeys.contains name) = true
       · left; rw [if_pos h3]
       · right; rw [if_neg h3]; exact ⟨rfl, h1, h2, h3⟩
 
